@@ -103,6 +103,9 @@ func runC16(p *core.Program, r *core.Report) {
 			}
 		}
 		r.Borrow("R16.3", func() { checkNoSharedWrites(p, r, "R15", entries, 3) })
+		// … and that a class flag contributes exactly the characters of its class string,
+		// an exclusion removes exactly those (= C03 R3.1-R3.3 re-run on the alphabet builder)
+		r.Borrow("R16.1", func() { checkAlphabetBuilder(p, r) })
 	}
 
 	// ---- R16.1
